@@ -26,8 +26,15 @@ type Field struct {
 // Fields is the field domain.
 var Fields = []Field{{"ff", model.Float}, {"fi", model.Integer}, {"fu", model.Unsigned}, {"fb", model.Boolean}, {"fs", model.String}}
 
+// BulkField is a field no generated batch writes: histories that want a key whose only blocks are
+// the ones they place deliberately (full blocks, one per file) use it.
+var BulkField = Field{"fk", model.Integer}
+
 // FieldKind returns the kind of a domain field.
 func FieldKind(name string) model.Kind {
+	if name == BulkField.Name {
+		return BulkField.Kind
+	}
 	for _, f := range Fields {
 		if f.Name == name {
 			return f.Kind
